@@ -66,14 +66,21 @@ class ForestModel(object):
     def ancestors(self, n):
         out = []
         p = self.parent[n]
+        limit = len(self.parent)
         while p is not None:
             out.append(p)
             p = self.parent[p]
+            if len(out) > limit:
+                raise RuntimeError("reference model holds a parent cycle (harness error)")
         return out
 
     def root(self, n):
+        limit = len(self.parent)
         while self.parent[n] is not None:
             n = self.parent[n]
+            limit -= 1
+            if limit < 0:
+                raise RuntimeError("reference model holds a parent cycle (harness error)")
         return n
 
     def descendants(self, n):
